@@ -2,6 +2,7 @@ mod c03;
 mod c09;
 mod c10;
 mod c13;
+mod c13p;
 mod compatx;
 mod crashx;
 mod drivers;
@@ -53,6 +54,7 @@ fn main() {
                 _ => usage(),
             }
         }
+        "c13p-run" => c13p::debug_run(&args[2..]),
         "golden-gen" => std::process::exit(compatx::generate()),
         "bench" => bench(),
         "dbg" => debug_bisim(),
@@ -181,8 +183,8 @@ fn run_check(id: &str, tier: Tier) -> i32 {
         "C04" => {
             let mut c = Check::new(id, tier, "model_checking");
             c.assumptions = vec![
-                "bounded: one writer thread (chains of 2-4 commits from a menu of six bodies of different dirty-set sizes) against 1-2 reader threads; all schedules up to the preemption bound given per case".into(),
-                "scheduling points: acquisition of every library lock (verif-hooks lock seam), every write/fsync/fallocate/mmap/flock/close on the database fd, a harness yield before every bucket a reader scans and between its dumps; complete for this library because it has no atomics-based or lock-free sharing on the transaction paths".into(),
+                "bounded: one writer thread (chains of 2-4 commits from a menu of six bodies of different dirty-set sizes), in three cases a second writer thread with a commuting chain, against 1-2 reader threads; all schedules up to the preemption bound given per case".into(),
+                "scheduling points: acquisition of every library lock (verif-hooks lock seam), every write/fsync/fallocate/mmap/flock/close on the database fd, every load / store of the library's one atomic (the free-list transaction tag, through the second hooks commit), a harness yield before every bucket a reader scans and between its dumps; the library has no other lock-free sharing on the transaction paths".into(),
                 "std::sync::RwLock explored under both a policy-free and a writer-preferring model".into(),
             ];
             schedx::run(&mut c, "C04", schedx::c04_case_infos(tier), if tier == Tier::Quick { &["free"] } else { &["free", "wp"] });
@@ -192,7 +194,7 @@ fn run_check(id: &str, tier: Tier) -> i32 {
             let mut c = Check::new(id, tier, "model_checking");
             c.assumptions = vec![
                 "bounded: 1-3 writer threads (read-modify-write increment of one counter) with 0-2 reader threads, each thread holding at most one transaction; all schedules up to the preemption bound given per case; fresh 4-page files so that the first commit grows and remaps the file".into(),
-                "scheduling points: every library lock acquisition, every system call on the database fd, harness yields inside the read-modify-write and between a reader's reads; deadlock = no enabled thread while some are unfinished (the scheduler owns the lock model)".into(),
+                "scheduling points: every library lock acquisition, every load / store of the library's atomic, every system call on the database fd, harness yields inside the read-modify-write and between a reader's reads; deadlock = no enabled thread while some are unfinished (the scheduler owns the lock model)".into(),
                 "std::sync::RwLock explored under a policy-free and a writer-preferring model".into(),
             ];
             schedx::run(&mut c, "C09", c09::case_infos(tier), &["free", "wp"]);
@@ -201,7 +203,8 @@ fn run_check(id: &str, tier: Tier) -> i32 {
         "C13" => {
             let mut c = Check::new(id, tier, "model_checking");
             c.assumptions = vec![
-                "openers are threads of one process, each with its own descriptor, mapping and DBInner: flock locks belong to the open file description, so two independent DB::open calls in one process conflict exactly as two processes do, and the library has no process-wide state".into(),
+                "thread cases: openers are threads of one process, each with its own descriptor, mapping and DBInner (flock locks belong to the open file description, so two independent DB::open calls in one process conflict exactly as two processes do; the library has no process-wide state); flock is a scheduler-modelled lock there".into(),
+                "process cases (labels processes-*): openers are forked child processes stopped before every system call on the database file and released one at a time through pipes; flock is the kernel's (a blocking request is made as a non-blocking attempt when the opener is released, 'would block' disables the opener until another one unlocks, closes or exits); same oracle; this binds the scheduler's flock model to the real semantics".into(),
                 "scheduling points at every interposed system call of the open / initialise / commit / close path (open, fallocate, write, fsync, flock, mmap, close) plus lock acquisitions and one harness yield while holding the database; flock is a scheduler-modelled lock keyed by inode, released at close".into(),
                 "bounded: 2 and 3 openers, all schedules up to the preemption bound given per case; varied start offsets / hold times of the property text are subsumed by the schedule enumeration".into(),
             ];
